@@ -36,8 +36,24 @@ fn sched_cb(name: &'static str) {
     let h = EXEC_HASH.load(Ordering::SeqCst);
     EXEC_HASH.store(mix64(h ^ (name.as_ptr() as u64).wrapping_mul(31) ^ (me << 56)), Ordering::SeqCst);
     SCHED_POINTS.fetch_add(1, Ordering::SeqCst);
-    shuttle::thread::sleep(Duration::from_secs(0));
+    match name {
+        // The real parking_lot lock of MetaManager::set_meta is shadowed: a thread that would have to
+        // wait for it waits cooperatively here instead, and never parks the only OS thread.
+        "manager::set_meta::lock" => {
+            while SHADOW_LOCK.swap(true, Ordering::SeqCst) {
+                shuttle::thread::yield_now();
+            }
+        }
+        "manager::set_meta::unlock" => {
+            // no scheduling point while the real guard is still alive
+            SHADOW_LOCK.store(false, Ordering::SeqCst);
+        }
+        _ => shuttle::thread::sleep(Duration::from_secs(0)),
+    }
 }
+
+static SHADOW_LOCK: AtomicBool = AtomicBool::new(false);
+static SOFT: Mutex<Vec<(String, String)>> = Mutex::new(Vec::new());
 
 // ---------------------------------------------------------------------------
 // stubs around the real queue
@@ -138,7 +154,7 @@ shuttle::thread_local! {
 }
 
 fn fail(tag: &str, detail: String) -> ! {
-    panic!("C11|{}|{}", tag, detail)
+    panic!("SIMV|{}|{}", tag, detail)
 }
 
 #[derive(Clone, Debug)]
@@ -338,6 +354,200 @@ fn parse_params(plan: &Value) -> Params {
     }
 }
 
+
+// ---------------------------------------------------------------------------
+// C05 (concurrent part): several threads install metadata on one real MetaManager
+
+use crate::simnet::{Net, SimClientFactory, SimConnFactory};
+use std::collections::HashMap;
+use std::convert::TryFrom;
+use undermoon::common::cluster::{ClusterName, Range, RangeList, ReplPeer, SlotRange, SlotRangeTag};
+use undermoon::common::config::ClusterConfig;
+use undermoon::common::proto::{ClusterMapFlags, ProxyClusterMeta};
+use undermoon::proxy::cluster::ClusterMetaError;
+use undermoon::proxy::manager::{MetaManager, MetaMap};
+use undermoon::replication::replicator::{MasterMeta, ReplicatorMeta};
+
+type Mgr = MetaManager<SimClientFactory, SimConnFactory>;
+
+fn new_manager() -> Mgr {
+    let net = Net::new(1, 1);
+    let addr = "10.0.0.1:7000";
+    let config = Arc::new(crate::cluster::proxy_config(addr, &crate::cluster::ProxyParams::default()));
+    let cf = Arc::new(SimClientFactory { net: net.clone(), src: "proxy:x".into(), timeout: Duration::from_secs(1) });
+    let conn = Arc::new(SimConnFactory { net, src: "proxy:x".into() });
+    let meta_map = Arc::new(arc_swap::ArcSwap::new(Arc::new(MetaMap::empty())));
+    let reg = Arc::new(undermoon::common::track::TrackedFutureRegistry::default());
+    MetaManager::new(config, cf, conn, meta_map, reg)
+}
+
+fn cluster_msg(epoch: u64) -> ProxyClusterMeta {
+    let name = ClusterName::try_from("c0").unwrap_or_else(|_| ClusterName::empty());
+    let split = 100 + (epoch as usize % 16000);
+    let mut local = HashMap::new();
+    local.insert("10.0.0.1:6000".to_string(), vec![SlotRange { range_list: RangeList::new(vec![Range(0, split)]), tag: SlotRangeTag::None }]);
+    let mut peer = HashMap::new();
+    peer.insert("10.0.1.1:7000".to_string(), vec![SlotRange { range_list: RangeList::new(vec![Range(split + 1, 16383)]), tag: SlotRangeTag::None }]);
+    ProxyClusterMeta::new(epoch, ClusterMapFlags { force: false, compress: false }, name, local, peer, ClusterConfig::default())
+}
+
+fn repl_msg(epoch: u64) -> ReplicatorMeta {
+    let name = ClusterName::try_from("c0").unwrap_or_else(|_| ClusterName::empty());
+    ReplicatorMeta {
+        epoch,
+        flags: ClusterMapFlags { force: false, compress: false },
+        masters: vec![MasterMeta { cluster_name: name, master_node_address: "10.0.0.1:6000".into(), replicas: vec![ReplPeer { node_address: format!("10.9.9.1:{}", 10_000 + epoch), proxy_address: "10.0.1.1:7000".into() }] }],
+        replicas: vec![],
+    }
+}
+
+fn nodes_epoch(text: &str) -> u64 {
+    text.lines().next().and_then(|l| l.split(' ').nth(6)).and_then(|e| e.parse().ok()).unwrap_or(0)
+}
+
+/// is there a total order of the calls, consistent with real time, in which
+/// "OK iff strictly newer than the installed epoch" explains every reply?
+fn explain(calls: &[(u64, u64, u64, bool)]) -> bool {
+    explain_with(calls, false)
+}
+
+/// `tentative`: a rejection is also explained by any other call (accepted or not) with an epoch
+/// >= the rejected one that was invoked before the rejected call returned — the replicator
+/// manager publishes a call's epoch optimistically before it knows whether that call will win.
+fn explain_with(calls: &[(u64, u64, u64, bool)], tentative: bool) -> bool {
+    // (inv, ret, epoch, ok)
+    let excused: Vec<bool> = calls
+        .iter()
+        .enumerate()
+        .map(|(i, c)| tentative && !c.3 && calls.iter().enumerate().any(|(j, o)| j != i && o.2 >= c.2 && o.0 < c.1))
+        .collect();
+    fn rec(calls: &[(u64, u64, u64, bool)], excused: &[bool], done: u32, cur: u64) -> bool {
+        if done.count_ones() as usize == calls.len() {
+            return true;
+        }
+        let min_ret = calls.iter().enumerate().filter(|(i, _)| done & (1 << i) == 0).map(|(_, c)| c.1).min().unwrap_or(u64::MAX);
+        for (i, c) in calls.iter().enumerate() {
+            if done & (1 << i) != 0 || c.0 > min_ret {
+                continue;
+            }
+            let would_ok = c.2 > cur;
+            if would_ok != c.3 && !(excused[i] && !c.3) {
+                continue;
+            }
+            if rec(calls, excused, done | (1 << i), if c.3 { c.2 } else { cur }) {
+                return true;
+            }
+        }
+        false
+    }
+    rec(calls, &excused, 0, 0)
+}
+
+#[derive(Clone, Debug)]
+struct MetaParams {
+    /// (thread, kind 0 = cluster / 1 = repl, epoch)
+    msgs: Vec<(usize, u8, u64)>,
+    threads: usize,
+    reader_samples: usize,
+}
+
+fn meta_scenario(p: &MetaParams) {
+    SHADOW_LOCK.store(false, Ordering::SeqCst);
+    let mgr = Arc::new(new_manager());
+    let clock = Arc::new(AtomicU64::new(1));
+    let calls: Arc<Mutex<Vec<(u8, u64, u64, u64, bool)>>> = Arc::new(Mutex::new(vec![]));
+    let samples: Arc<Mutex<Vec<(u64, u64)>>> = Arc::new(Mutex::new(vec![]));
+    let mut handles = vec![];
+    for t in 0..p.threads {
+        let my: Vec<(u8, u64)> = p.msgs.iter().filter(|m| m.0 == t).map(|m| (m.1, m.2)).collect();
+        let mgr = mgr.clone();
+        let clock = clock.clone();
+        let calls = calls.clone();
+        handles.push(shuttle::thread::spawn(move || {
+            for (kind, epoch) in my {
+                let inv = clock.fetch_add(1, Ordering::SeqCst);
+                let r = if kind == 0 { mgr.set_meta(cluster_msg(epoch)) } else { mgr.update_replicators(repl_msg(epoch)) };
+                let ret = clock.fetch_add(1, Ordering::SeqCst);
+                let ok = match r {
+                    Ok(()) => true,
+                    Err(ClusterMetaError::OldEpoch) => false,
+                    Err(e) => fail("unexpected-reply", format!("{:?} for kind {} epoch {}", e, kind, epoch)),
+                };
+                calls.lock().expect("calls").push((kind, inv, ret, epoch, ok));
+            }
+        }));
+    }
+    {
+        let mgr = mgr.clone();
+        let samples = samples.clone();
+        let n = p.reader_samples;
+        handles.push(shuttle::thread::spawn(move || {
+            for _ in 0..n {
+                sched_cb("reader::before_epoch");
+                let e = mgr.get_epoch();
+                sched_cb("reader::between");
+                let s = nodes_epoch(&mgr.gen_cluster_nodes());
+                samples.lock().expect("samples").push((e, s));
+            }
+        }));
+    }
+    for h in handles {
+        if h.join().is_err() {
+            fail("thread-panicked", "a scenario thread panicked".to_string());
+        }
+    }
+    let calls = calls.lock().expect("calls").clone();
+    for kind in 0..2u8 {
+        let cs: Vec<(u64, u64, u64, bool)> = calls.iter().filter(|c| c.0 == kind).map(|c| (c.1, c.2, c.3, c.4)).collect();
+        if !explain(&cs) {
+            if kind == 1 && explain_with(&cs, true) {
+                // a recorded (known) deviation: note it and keep exploring, so that it cannot hide anything else
+                SOFT.lock().expect("soft").push((
+                    "repl-rejected-by-tentative-epoch".to_string(),
+                    format!("a SETREPL was answered OLD_EPOCH although no accepted message with an epoch >= its own had been applied when it returned; it lost against the optimistically published epoch of a concurrent call that was itself rejected later: (invoke, return, epoch, ok) = {:?}", cs),
+                ));
+                continue;
+            }
+            fail(
+                if kind == 0 { "cluster-replies-not-explainable" } else { "repl-replies-not-explainable" },
+                format!("no order of the concurrent calls explains the replies under 'applied iff strictly newer than installed': (invoke, return, epoch, ok) = {:?}", cs),
+            );
+        }
+        let max_ok = cs.iter().filter(|c| c.3).map(|c| c.2).max().unwrap_or(0);
+        if kind == 0 {
+            let e = mgr.get_epoch();
+            let s = nodes_epoch(&mgr.gen_cluster_nodes());
+            if e != max_ok || (max_ok > 0 && s != max_ok) {
+                fail("final-cluster-meta-not-newest-accepted", format!("after all calls: reported epoch {}, routing metadata of epoch {}, newest accepted message {} (calls {:?})", e, s, max_ok, cs));
+            }
+        } else if max_ok > 0 {
+            let report = crate::cluster::resp_to_strings(&mgr.get_replication_info()).join(" ");
+            let marker = format!("10.9.9.1:{}", 10_000 + max_ok);
+            if !report.contains(&marker) {
+                fail("final-repl-meta-not-newest-accepted", format!("after all calls the replication roles are not those of the newest accepted message (epoch {}): {} (calls {:?})", max_ok, report, cs));
+            }
+        }
+    }
+    // the reader: the reported epoch is never ahead of the installed routing metadata, and never decreases
+    let ss = samples.lock().expect("samples").clone();
+    let mut last = (0u64, 0u64);
+    for (e, s) in ss.iter() {
+        if e > s {
+            fail("reported-epoch-ahead-of-metadata", format!("a reader saw reported epoch {} and then routing metadata of the older epoch {} (samples {:?})", e, s, ss));
+        }
+        if *e < last.0 || *s < last.1 {
+            fail("epoch-decreased", format!("a reader saw (epoch, metadata epoch) go from {:?} to {:?}", last, (e, s)));
+        }
+        last = (*e, *s);
+    }
+}
+
+fn parse_meta_params(plan: &Value) -> MetaParams {
+    let msgs: Vec<(usize, u8, u64)> = plan["tasks"].as_array().map(|a| a.iter().map(|t| (t["s"].as_u64().unwrap_or(0) as usize, t["kind"].as_u64().unwrap_or(0) as u8, t["epoch"].as_u64().unwrap_or(1))).collect()).unwrap_or_default();
+    let threads = msgs.iter().map(|m| m.0 + 1).max().unwrap_or(0);
+    MetaParams { msgs, threads, reader_samples: plan["reader_samples"].as_u64().unwrap_or(3) as usize }
+}
+
 pub struct ShuttleCheck {
     pub prop: &'static str,
 }
@@ -357,6 +567,23 @@ impl Check for ShuttleCheck {
     }
     fn gen_plan(&self, seed: u64, index: u64, tier: Tier) -> Value {
         let mut rng = Rng::new(seed, "plan");
+        if self.prop == "C05" {
+            let threads = rng.range(2, 3) as usize;
+            let mut tasks = vec![];
+            for t in 0..threads {
+                for _ in 0..rng.range(1, 3) {
+                    tasks.push(json!({"s": t, "kind": rng.below(2), "epoch": rng.range(1, 5)}));
+                }
+            }
+            return json!({
+                "engine": "shuttle", "scenario": "meta", "seed": seed,
+                "scheduler": if index % 4 == 3 { "pct" } else { "random" },
+                "pct_depth": rng.range(2, 4),
+                "iters": match tier { Tier::Quick => 200, Tier::Thorough => 500 },
+                "reader_samples": rng.range(2, 8),
+                "tasks": tasks,
+            });
+        }
         let senders = rng.range(2, 4) as usize;
         let mut tasks = vec![];
         for s in 0..senders {
@@ -382,8 +609,24 @@ impl Check for ShuttleCheck {
     }
     fn execute(&self, plan: &Value, want_sample: bool) -> RunRecord {
         undermoon::common::verif::register_sched_point(sched_cb);
+        if std::env::var("VERIF_DEBUG").is_err() {
+            // shuttle's panic hook prints the failing schedule to stderr; it is also persisted to a file
+            unsafe {
+                let fd = libc::open(b"/dev/null\0".as_ptr() as *const libc::c_char, libc::O_WRONLY);
+                if fd >= 0 {
+                    libc::dup2(fd, 2);
+                    libc::close(fd);
+                }
+            }
+        }
         let mut rec = RunRecord::default();
         let p = parse_params(plan);
+        let is_meta = plan["scenario"].as_str() == Some("meta");
+        let mp = parse_meta_params(plan);
+        // MetaManager spawns tokio tasks (backend connections, replicators): a runtime must be entered.
+        // The tasks are never polled: only the synchronous install path is under test.
+        let rt = tokio::runtime::Builder::new_current_thread().enable_time().start_paused(true).build().expect("runtime");
+        let _enter = rt.enter();
         let seed = plan["seed"].as_u64().unwrap_or(0);
         let iters = plan["iters"].as_u64().unwrap_or(100) as usize;
         let dir = std::path::PathBuf::from(std::env::var("VERIF_TMP").unwrap_or_else(|_| "/verif/sim/target/tmp".to_string())).join(format!("shuttle-{}", std::process::id()));
@@ -398,7 +641,11 @@ impl Check for ShuttleCheck {
         let p2 = p.clone();
         let body = move || {
             EXEC_HASH.store(0, Ordering::SeqCst);
-            scenario(&p2);
+            if is_meta {
+                meta_scenario(&mp);
+            } else {
+                scenario(&p2);
+            }
             d2.lock().expect("distinct").insert(EXEC_HASH.load(Ordering::SeqCst));
         };
         IN_SHUTTLE.store(true, Ordering::SeqCst);
@@ -431,9 +678,15 @@ impl Check for ShuttleCheck {
         rec.steps = res.as_ref().map(|n| *n as u64).unwrap_or(0);
         rec.probe_n("distinct_schedules", d.len() as u64);
         rec.nontrivial = d.len() > 1 || pinned.is_some();
+        {
+            let soft = std::mem::take(&mut *SOFT.lock().expect("soft"));
+            if let Some((tag, detail)) = soft.first() {
+                rec.violate(Violation::new(self.prop, tag, format!("{} (seen in {} of the explored schedules)", short(detail, 1200), soft.len())));
+            }
+        }
         if res.is_err() {
             let msgs = crate::sandbox::take_panics();
-            let first = msgs.iter().find(|m| m.starts_with("C11|")).cloned().unwrap_or_else(|| msgs.join(" | "));
+            let first = msgs.iter().find(|m| m.starts_with("SIMV|")).cloned().unwrap_or_else(|| msgs.join(" | "));
             let mut parts = first.splitn(3, '|');
             let _ = parts.next();
             let tag = parts.next().unwrap_or("shuttle-panic").to_string();
@@ -447,7 +700,7 @@ impl Check for ShuttleCheck {
                     }
                 }
             }
-            let tag = if first.starts_with("C11|") { tag } else { "shuttle-panic".to_string() };
+            let tag = if first.starts_with("SIMV|") { tag } else { "shuttle-panic".to_string() };
             let mut pinned_plan = plan.clone();
             if let Some(o) = pinned_plan.as_object_mut() {
                 o.insert("schedule".to_string(), json!(schedule));
@@ -475,6 +728,16 @@ impl Check for ShuttleCheck {
         40
     }
     fn meta(&self) -> Meta {
+        if self.prop == "C05" {
+            return Meta {
+                level: "exploration",
+                rule: "one run = one forked child exploring 200 (quick) / 500 schedules (shuttle random, every 4th PCT) of 2-3 threads installing 1-3 SETCLUSTER/SETREPL messages each (epochs 1-5, colliding on purpose) on one real MetaManager, plus a reader thread sampling reported epoch then routing metadata; threads switch at the H9 points (before the metadata lock, between meta_map.store and epoch.store, around the optimistic updating_epoch of the replicator manager). Oracle: the replies are explainable by some real-time-consistent order under 'applied iff strictly newer'; the final routing metadata / replication roles are those of the newest accepted message; a reader never sees the reported epoch ahead of the installed metadata, and never sees either decrease.",
+                real: vec!["proxy::manager::MetaManager::set_meta", "replication::manager::ReplicatorManager::update_replicators", "proxy::cluster::ClusterBackendMap, migration::manager (map construction)"],
+                stubs: vec!["tokio tasks spawned by the install path are never polled (no backend traffic)", "the parking_lot metadata lock is shadowed by a cooperative lock at the H9 points so that a waiting thread yields instead of parking the OS thread"],
+                assumptions: vec!["sequential consistency (all accesses SeqCst; shuttle runs one thread at a time)", "interleavings at the granularity of the H9 scheduling points"],
+                fault_kinds: vec![],
+            };
+        }
         Meta {
             level: "exploration",
             rule: "one run = one forked child exploring `iters` schedules (shuttle RandomScheduler, every 4th run PCT depth 2-4) of 2-4 sender threads x 1-3 commands (all blocking hints, hints derived from the observed state as scan_task.rs does) + 1-2 blocker threads (start_blocking, poll blocking_done, hold, drop) + a backend thread completing in-flight commands; threads switch at the H8 points before every atomic access. distinct = distinct hashes of the per-execution sequence (thread, sched point); a run is non-trivial if it executed >1 distinct schedule.",
